@@ -70,18 +70,28 @@ Proof. exact GenProofs.gen_list_increments_sum. Qed.
 Print Assumptions reaction_steps_sum_list.
 
 (* the executable exact-Q inventory checker is sound, for every element (listed or not) *)
-Theorem check_balance_sound : forall tol expected after,
-  0 <= tol -> check_balance tol expected after = true -> forall e, bal_ok tol expected after e.
+Theorem check_balance_sound : forall tol floor expected after,
+  0 <= tol -> 0 <= floor ->
+  check_balance tol floor expected after = true -> forall e, bal_ok tol floor expected after e.
 Proof. exact Checker.check_balance_sound. Qed.
 Print Assumptions check_balance_sound.
 
-Theorem check_case_sound : forall stepf tol c,
-  0 <= tol -> check_case stepf tol c = true ->
+(* a case accepted by the checker satisfies the property: after = parts + amount * stoichiometry within
+   tol * inventory (+ floor), and no reactant amount is negative *)
+Theorem check_case_sound : forall stepf tol floor c,
+  0 <= tol -> 0 <= floor -> check_case stepf tol floor c = true ->
   (forall e, exists sys, ieq sys (expected_inv stepf c) /\
-             Qabs (get e (inv_ents (c_after c)) - get e (expected_inv stepf c)) <= tol * scale sys e) /\
+             Qabs (get e (inv_ents (c_after c)) - get e (expected_inv stepf c)) <= tol * scale sys e + floor) /\
   Forall (fun a => 0 <= a) (amounts (c_after c)).
 Proof. exact Checker.check_case_sound. Qed.
 Print Assumptions check_case_sound.
+
+Theorem check_rows_sound : forall stepf tol floor c,
+  check_rows stepf tol floor c = true ->
+  forall k row, In (k, row) (combine (seq 1 (length (r_rows c))) (r_rows c)) ->
+  forall e, In e (keys row) -> bal_ok tol floor (row_expected stepf c k) row e.
+Proof. exact Checker.check_rows_sound. Qed.
+Print Assumptions check_rows_sound.
 
 (* T-gen: the accumulation statements of the add_* functions of step.cpp, as they are NOW *)
 Theorem acc_add_reaction : acc_spec "add_reaction" gen_acc
